@@ -2505,7 +2505,13 @@ func (fc *fnCtx) afterStore(st *State, a *ssa.Alloc, store *ssa.Store, prevVal s
 				own["prev"] = Val{T: prevVal, Ty: a.Type().(*types.Pointer).Elem()}
 			}
 		}
+		// other names resolve as at the assignment (several locals of the function may share a name)
+		savePos := t.curPos
+		if store.Pos().IsValid() {
+			t.curPos = store.Pos()
+		}
 		env := fc.specEnv(st, own)
+		t.curPos = savePos
 		g, err := env.goal(as.Assert.Expr)
 		if err != nil {
 			fc.specError(as.Assert, err)
